@@ -91,6 +91,59 @@ fn handover_exec(case: &(usize, usize, Option<usize>), ctx: &WorkerCtx) -> ExecR
     })
 }
 
+/// Large frames through `receive_raw` on a connection that went through the handshake (the reader started in the
+/// 2-byte mode), and end of stream inside a frame on the read-half path.
+fn recv_big_exec(case: &(usize, usize), ctx: &WorkerCtx) -> ExecResult {
+    let (len, mode) = *case;
+    run_rt(async move {
+        let mut res = ExecResult::default();
+        let mut cw = match conn_world(ctx, flags_default(), flags_default()).await { Ok(x) => x, Err(e) => { res.violations.push(("could not establish the connection under a conforming peer".into(), json!({"error": e}))); return res; } };
+        cw.w.gates.set_active(&[]);
+        let got: Arc<Mutex<Vec<Result<usize, String>>>> = Arc::new(Mutex::new(vec![]));
+        let g2 = got.clone();
+        let mut conn = cw.conn;
+        tokio::spawn(async move {
+            if mode == 0 {
+                loop { let r = conn.receive_raw().await; let stop = r.is_err(); g2.lock().unwrap().push(r.map(|b| b.len()).map_err(|e| e.to_string())); if stop { break; } }
+            } else {
+                let mut rh = conn.take_read_half().expect("read half");
+                loop { let r = edp_client::Connection::receive_message_from_read_half(&mut rh, std::time::Duration::from_secs(1000)).await; let stop = r.is_err(); g2.lock().unwrap().push(r.map(|_| 0usize).map_err(|e| e.to_string())); if stop { break; } }
+                drop(conn);
+            }
+        });
+        let probe = { let g = got.clone(); move || g.lock().unwrap().len() as u64 };
+        if mode == 0 {
+            // a complete frame of `len` bytes, then a small one
+            let body: Vec<u8> = (0..len).map(|i| (i % 253) as u8).collect();
+            cw.peer.send(&frame(&body, 4));
+            cw.peer.send(&frame(&[1, 2, 3], 4));
+            // a megabyte takes many socket reads during which nothing observable changes: keep settling until both results are in
+            for _ in 0..400 { cw.w.settle(&mut cw.peer, &probe).await; if got.lock().unwrap().len() >= 2 { break; } }
+            let all = got.lock().unwrap().clone();
+            if all != vec![Ok(len), Ok(3)] {
+                res.violations.push(("a large frame is not read back after the handshake".into(), json!({"frame_length": len, "results": format!("{:?}", all)})));
+            }
+        } else {
+            // one valid message, then a frame that announces `len` bytes of which only a few arrive before the peer closes
+            let to = vcore::refval::RefVal::Pid { node: "me@127.0.0.1".into(), id: 1, serial: 0, creation: 1 };
+            cw.peer.send(&crate::procs::send_to(&to, vcore::refval::RefVal::atom("first")));
+            let mut t = (len as u32).to_be_bytes().to_vec();
+            t.extend_from_slice(&[112, 131, 104][..3.min(len)]);
+            cw.peer.send(&t);
+            cw.w.settle(&mut cw.peer, &probe).await;
+            cw.peer.close();
+            cw.w.settle(&mut cw.peer, &probe).await;
+            let all = got.lock().unwrap().clone();
+            if all.len() != 2 || all[0].is_err() || all[1].is_ok() {
+                res.violations.push(("end of stream inside a frame did not surface as exactly one error on the read-half path".into(), json!({"announced_length": len, "results": format!("{:?}", all)})));
+            }
+        }
+        res.steps = 2;
+        res.outcome = format!("recv big {} mode {}", len, mode);
+        res
+    })
+}
+
 /// The writing side over a socket: `send_raw` for a sequence of messages; the peer's bytes must be exactly the one-shot framing.
 fn send_raw_exec(lens: &Vec<usize>, ctx: &WorkerCtx) -> ExecResult {
     let lens = lens.clone();
@@ -135,7 +188,10 @@ pub fn run(rep: &Report) -> Value {
     let st_h: Stats = for_all(rep, "frames coalesced with the handshake acknowledgement", &hand, |c, ctx| handover_exec(c, ctx));
     let wlens: Vec<Vec<usize>> = vec![vec![0, 1, 2, 0, 255, 256], vec![65_535, 65_536, 65_537, 3], vec![200_000, 0, 1 << 20, 5], vec![70_000, 70_001]];
     let st_w: Stats = for_all(rep, "send_raw against the one-shot framing", &wlens, |c, ctx| send_raw_exec(c, ctx));
+    let big: Vec<(usize, usize)> = vec![(65_535, 0), (65_536, 0), (65_537, 0), (200_000, 0), (1 << 20, 0), (4, 1), (50, 1), (70_000, 1)];
+    let st_b: Stats = for_all(rep, "large frames after the handshake; end of stream inside a frame on the read half", &big, |c, ctx| recv_big_exec(c, ctx));
     json!({
+        "large_frame_executions": st_b.executions,
         "states": st.executions + st_h.executions + st_w.executions,
         "transitions": st.transitions + st_h.transitions + st_w.transitions,
         "traces_validated_against_impl": st.executions + st_h.executions + st_w.executions,
@@ -143,6 +199,6 @@ pub fn run(rep: &Report) -> Value {
         "exhaustive": true,
         "distinct_outcomes": st.distinct_outcomes,
         "unstable_failures_not_reported": st.unstable,
-        "rule": "the connection's socket-backed framed reader (receive_raw) fed 7 short frame sequences (ticks, 1..5-byte messages) under every single cut and every pair of cuts of the byte stream (pairs thinned to a third for streams longer than 10 bytes in quick), the peer settling between chunks, then a truncated frame followed by close; plus 8 executions in which the peer's first 0, 1, 2 or 5 frames and half of one more share a TCP segment with the handshake acknowledgement and are read through receive_raw or through the read half handed over by take_read_half, and 194 in which a two-frame stream is divided at every byte position between the acknowledgement's segment and a later one; and four send_raw sequences with message lengths 0..2^20 (around 255/256 and 65535/65536/65537) whose bytes on the wire must equal the one-shot framing",
+        "rule": "the connection's socket-backed framed reader (receive_raw) fed 7 short frame sequences (ticks, 1..5-byte messages) under every single cut and every pair of cuts of the byte stream (pairs thinned to a third for streams longer than 10 bytes in quick), the peer settling between chunks, then a truncated frame followed by close; plus 8 executions in which the peer's first 0, 1, 2 or 5 frames and half of one more share a TCP segment with the handshake acknowledgement and are read through receive_raw or through the read half handed over by take_read_half, and 194 in which a two-frame stream is divided at every byte position between the acknowledgement's segment and a later one; and four send_raw sequences with message lengths 0..2^20 (around 255/256 and 65535/65536/65537) whose bytes on the wire must equal the one-shot framing; five frames of 65535..2^20 bytes read through receive_raw after the handshake, and three truncated frames followed by close on the read-half path",
     })
 }
